@@ -25,6 +25,20 @@ reg("C01", "bounded-exhaustive exploration of the real GLRParser over all small 
     "trusted: the reference chart (pgmc/ref/cfg.py), CPython, re; bounds as "
     "listed in the evidence file", "DESIGN.md section 8 C01")
 
+reg("C05", "explicit-state exploration of the product of parglare's LR automaton "
+    "with a canonical LR(1) reference automaton, every reachable pair "
+    "replayed through the real GLR driver",
+    "For every grammar with <= 4 productions (quick; thorough adds k=5, "
+    "rhs<=3, three nonterminals) and both table kinds and both start "
+    "productions, all reachable (parglare state, canonical LR(1) state) pairs "
+    "are enumerated and the simulation relation (lower bound; LALR(1) upper "
+    "bound; conflicts only where LALR(1) has them) is checked in each; "
+    "termination is decided by a reference-derived state budget. Covers "
+    "viable prefixes of every length for these grammars.",
+    "trusted: canonical LR(1) reference (pgmc/ref/lr1.py), Earley oracle for "
+    "the driver binding; grammar-size bound remains",
+    "DESIGN.md section 8 C05")
+
 NOT_YET = "check not built yet in this round (planned, see DESIGN.md section 8/12)"
 
 checks = []
